@@ -129,10 +129,13 @@ pub fn solve_milp_lp_problem_with(
         OptimizationType::Min => OptimizationDirection::Minimize,
         OptimizationType::Satisfy => OptimizationDirection::Minimize,
     };
+    // A satisfy model only asks for a feasible point: the costs it may still carry must not
+    // steer the search, let alone make a satisfiable model look unbounded.
+    let satisfy = matches!(lp.optimization_type(), OptimizationType::Satisfy);
     let mut problem = Problem::new(opt_type);
     for (i, var) in variables.iter().enumerate() {
         let var_domain = domain.get(var).unwrap();
-        let coeff = objective[i];
+        let coeff = if satisfy { 0.0 } else { objective[i] };
         // A variable without any finite bound is handed to MicroLP as the difference of
         // two non-negative columns: MicroLP cycles or reports wrong verdicts on free columns.
         let added_var = match var_domain.get_type() {
@@ -226,12 +229,12 @@ pub fn solve_milp_lp_problem_with(
                 .collect();
             let coeffs = microlp_vars.iter().map(value_of).collect();
             let constraints = make_constraints_map_from_assignment(lp, &coeffs);
-            Ok(LpSolution::new(
-                assignment,
-                s.objective() + lp.objective_offset(),
-                constraints,
-            )
-            .with_status(status))
+            let value = if satisfy {
+                lp.calc_objective(&coeffs)
+            } else {
+                s.objective() + lp.objective_offset()
+            };
+            Ok(LpSolution::new(assignment, value, constraints).with_status(status))
         }
         Err(e) => Err(match e {
             Error::InternalError(s) => SolverError::Other(s),
